@@ -31,7 +31,7 @@ pub const PROPS: &[PropDef] = &[
     PropDef { id: "C16", title: "expired values are physically dropped from scanned bucket lists", level: "exploration", runs: (200_000, 10_000_000), design_ref: "4/C16" },
     PropDef { id: "C17", title: "map and set handles stay valid across insertions", level: "exploration", runs: (100_000, 5_000_000), design_ref: "4/C17" },
     PropDef { id: "C18", title: "a panicking user callback leaves every collection valid and un-torn", level: "fault_enumeration", runs: (24_000, 1_200_000), design_ref: "4/C18" },
-    PropDef { id: "C19", title: "ordered export allocates in proportion to the entry count", level: "exploration", runs: (1_600, 40_000), design_ref: "4/C19" },
+    PropDef { id: "C19", title: "ordered export allocates in proportion to the entry count", level: "exploration", runs: (1_600, 8_000), design_ref: "4/C19" },
     PropDef { id: "C20", title: "only live keys are handed to the caller's comparison code", level: "exploration", runs: (120_000, 6_000_000), design_ref: "4/C20" },
 ];
 
@@ -239,12 +239,12 @@ pub fn draw_plan(prop: &str, index: u64, r: &mut Rng, thorough: bool) -> RunPlan
                 &[0, 1, 2, 3, 7, 8, 9, 15, 16, 17, 31, 33, 63, 64, 65, 127, 128, 129, 255, 257, 511, 513, 1023, 1025, 2047, 4095, 4097, 8191, 16383, 16385, 32767, 65537, 200_000, 262_145]
             };
             // boundary sizes most of the time, any size in between otherwise
-            if (index / 3) % 2 == 1 && !(thorough && index % 20_000 == 10_003) {
+            if (index / 3) % 2 == 1 && !(thorough && index % 4_000 == 2_003) {
                 // general histories: the arena may have been much fuller earlier than it is at export time
                 c.universe = *r.pick(&[64, 1024, 1 << 20]);
                 return RunPlan { cfg: c, len: draw_len(r, thorough).max(if r.chance(1, 2) { 200 } else { 40 }), bulk: None, ord_bulk: None };
             }
-            if thorough && index % 20_000 == 10_003 {
+            if thorough && index % 4_000 == 2_003 {
                 // giant build, see the end of this function
                 len = 8;
                 return_giant = true;
@@ -389,7 +389,7 @@ pub fn draw_plan(prop: &str, index: u64, r: &mut Rng, thorough: bool) -> RunPlan
         len = 14 + r.below(6) as usize;
     }
     // ... and of the expiring-key tree (C07: the export of it; C19: its allocation)
-    if thorough && bulk.is_none() && ((prop == "C07" && index % 2_000_000 == 1_000_003) || (prop == "C19" && index % 20_000 == 10_003)) {
+    if thorough && bulk.is_none() && ((prop == "C07" && index % 2_000_000 == 1_000_003) || (prop == "C19" && index % 4_000 == 2_003)) {
         let n: i32 = (1 << 25) + 7;
         cfg.key_ty = r.below(2) as u8;
         cfg.colls = C_TREE;
